@@ -3,10 +3,10 @@ from common import COMMON_TB
 PROP = {
     "bin": "c11",
     "prop_file": "Properties/C11.v",
-    "model_files": ["Storage/Crash.v", "Storage/CrashProofs.v", "Storage/WriteOnce.v", "Storage/Faults.v"],
+    "model_files": ["Storage/Crash.v", "Storage/CrashProofs.v", "Storage/WriteOnce.v", "Storage/Faults.v", "Storage/Pipeline.v", "Storage/PipelineProofs.v"],
     "level": "proof",
     "engine": "E1-storage",
-    "harness_timeout": 1500,
+    "harness_timeout": 2700,
     "level_text": "Proof (partial): the persistence model and commit discipline of C01 applied to runs with injected I/O errors. C11_ok_commit_is_complete: at the "
                   "instant a commit returns Ok, every crash outcome recovers exactly the generation it published, complete. C11_last_commit_intact: at every point of a "
                   "faulty run whatever is recoverable is at least the last successful commit, complete, none of its files deleted. Tie: for every storage-operation "
